@@ -1152,6 +1152,343 @@ theorem finderLiteralAfterLoop_sound (lower : Nat → Nat) (l : LitAfterLoop) (S
     intro p k hp1 _ _ hk1 _ _
     omega
 
+/-! ### the required-landmark chain -/
+
+/-- from `lb` on the remaining landmarks occur in order: some alternative of the next landmark matches with
+    its core at `c ≥ lb`, and the rest of the chain from the earliest end of that alternative's core -/
+def LmChainAt (text : List Nat) : List (List LmAlt) → Nat → Prop
+  | [], _ => True
+  | alts :: rest, lb => ∃ c alt, lb ≤ c ∧ alt ∈ alts ∧ (lmAltMatch text c alt).isSome = true ∧
+      LmChainAt text rest (c + alt.minWidth)
+
+/-- the fact `findRequiredLandmarkChainLeftToRight` consumes.  At every successful attempt position `p`:
+    a run of leading-loop characters `[p, a)`, then a run `[a, c)` of characters that are leading whitespace
+    of some alternative of the first landmark, then an alternative of the first landmark with its core at
+    `c` (as `requiredLandmarkAlternativeMatch` tests it), then every later landmark in order, each core
+    starting no earlier than the previous core's start plus the SHORTEST width of the alternative used -/
+def LandmarkFact (S : Nat → Bool) (first : List LmAlt) (rest : List (List LmAlt)) (text : List Nat)
+    (attempt : Nat → Option (Nat × Nat)) : Prop :=
+  ∀ p, p ≤ text.length → attempt p ≠ none →
+    ∃ a c alt, p ≤ a ∧ a ≤ c ∧ (∀ j, p ≤ j → j < a → memAt S text j = true) ∧
+      (∀ j, a ≤ j → j < c → memAt (lmLeadingWs first) text j = true) ∧
+      alt ∈ first ∧ (lmAltMatch text c alt).isSome = true ∧ LmChainAt text rest (c + alt.minWidth)
+
+theorem runOf_le (S : Nat → Bool) (text : List Nat) (start maxRepeat : Nat) : ∀ (fuel e : Nat), e ≤ text.length →
+    runOf S text start maxRepeat fuel e ≤ text.length := by
+  intro fuel
+  induction fuel with
+  | zero => intro e h; simpa [runOf] using h
+  | succ fuel ih =>
+    intro e h
+    unfold runOf
+    split
+    · rename_i hc
+      simp only [Bool.and_eq_true, decide_eq_true_eq] at hc
+      exact ih (e + 1) (by omega)
+    · exact h
+
+/-- the core of an alternative is at least as wide as its minimum and ends inside the input -/
+theorem lmCore_some (text : List Nat) (c : Nat) (alt : LmAlt) (e : Nat) (h : lmCore text c alt = some e) :
+    c < e ∧ e ≤ text.length := by
+  unfold lmCore at h
+  simp only [] at h
+  by_cases hl : alt.literal.isEmpty = true
+  · simp only [hl, Bool.not_true, Bool.false_eq_true, if_false] at h
+    cases hs : alt.set with
+    | none => simp [hs] at h
+    | some S =>
+      simp only [hs] at h
+      by_cases hm : 0 < alt.minRepeat
+      · simp only [hm, if_true] at h
+        by_cases hrun : runOf S text c (if alt.maxRepeat ≤ 0 then alt.minRepeat else alt.maxRepeat.toNat) (text.length + 1) c - c < alt.minRepeat
+        · rw [if_pos hrun] at h; simp at h
+        · rw [if_neg hrun] at h
+          injection h with h
+          subst h
+          refine ⟨by omega, ?_⟩
+          by_cases hcn : c ≤ text.length
+          · exact runOf_le S text c _ (text.length + 1) c hcn
+          · exfalso
+            apply hrun
+            have : runOf S text c (if alt.maxRepeat ≤ 0 then alt.minRepeat else alt.maxRepeat.toNat) (text.length + 1) c = c := by
+              unfold runOf
+              have : ¬ c < text.length := by omega
+              simp [this]
+            rw [this]; omega
+      · simp [hm] at h
+  · simp only [hl, Bool.not_false, if_true] at h
+    by_cases hfit : (decide (text.length < c + alt.literal.length) || !occursAt eqExact alt.literal text c) = true
+    · rw [if_pos hfit] at h; simp at h
+    · rw [if_neg hfit] at h
+      injection h with h
+      subst h
+      simp only [Bool.or_eq_true, decide_eq_true_eq, not_or, Nat.not_lt] at hfit
+      have hne : alt.literal ≠ [] := by simpa [List.isEmpty_iff] using hl
+      have := List.length_pos_iff.mpr hne
+      exact ⟨by omega, by omega⟩
+
+/-- an alternative that matches has its core where it was tried, inside the input -/
+theorem lmAltMatch_some (text : List Nat) (c : Nat) (alt : LmAlt) (mt : LmMatch)
+    (h : lmAltMatch text c alt = some mt) : mt.coreStart = c ∧ c < text.length := by
+  unfold lmAltMatch at h
+  simp only [] at h
+  split at h
+  · simp at h
+  · cases hc : lmCore text c alt with
+    | none => rw [hc] at h; simp at h
+    | some e =>
+      rw [hc] at h
+      simp only [] at h
+      obtain ⟨h1, h2⟩ := lmCore_some text c alt e hc
+      split at h
+      · simp at h
+      · injection h with h; subst h; exact ⟨rfl, by omega⟩
+
+theorem lmMinEnd_le (cs : Nat) : ∀ (alts : List LmAlt) (e0 : Nat),
+    alts.foldl (fun minEnd other => if cs + other.minWidth < minEnd then cs + other.minWidth else minEnd) e0 ≤ e0 ∧
+    ∀ o, o ∈ alts →
+      alts.foldl (fun minEnd other => if cs + other.minWidth < minEnd then cs + other.minWidth else minEnd) e0 ≤ cs + o.minWidth := by
+  intro alts
+  induction alts with
+  | nil => intro e0; simp
+  | cons a rest ih =>
+    intro e0
+    simp only [List.foldl_cons]
+    by_cases hlt : cs + a.minWidth < e0
+    · simp only [hlt, if_true]
+      obtain ⟨h1, h2⟩ := ih (cs + a.minWidth)
+      refine ⟨by omega, ?_⟩
+      intro o ho
+      simp only [List.mem_cons] at ho
+      rcases ho with rfl | ho
+      · exact h1
+      · exact h2 o ho
+    · simp only [hlt, if_false]
+      obtain ⟨h1, h2⟩ := ih e0
+      refine ⟨h1, ?_⟩
+      intro o ho
+      simp only [List.mem_cons] at ho
+      rcases ho with rfl | ho
+      · omega
+      · exact h2 o ho
+
+/-- `findNextRequiredLandmarkRunes`: the first position at or after `i` where an alternative matches, and an
+    earliest end that no alternative's core can undercut -/
+theorem lmFindNext_spec (text : List Nat) (alts : List LmAlt) : ∀ (fuel i : Nat), text.length ≤ i + fuel →
+    match lmFindNext text alts fuel i with
+    | some (mt, minEnd) => i ≤ mt.coreStart ∧ mt.coreStart < text.length ∧
+        (∀ c, i ≤ c → c < mt.coreStart → ∀ alt, alt ∈ alts → lmAltMatch text c alt = none) ∧
+        (∀ o, o ∈ alts → minEnd ≤ mt.coreStart + o.minWidth)
+    | none => ∀ c, i ≤ c → ∀ alt, alt ∈ alts → lmAltMatch text c alt = none := by
+  intro fuel
+  induction fuel with
+  | zero =>
+    intro i h
+    simp only [lmFindNext]
+    intro c hc alt _
+    cases hm : lmAltMatch text c alt with
+    | none => rfl
+    | some mt => have := (lmAltMatch_some text c alt mt hm).2; omega
+  | succ fuel ih =>
+    intro i h
+    unfold lmFindNext
+    by_cases hin : i < text.length
+    · rw [if_pos hin]
+      cases hf : alts.findSome? (lmAltMatch text i) with
+      | some mt =>
+        simp only []
+        obtain ⟨alt, halt, hm⟩ := List.exists_of_findSome?_eq_some hf
+        obtain ⟨hcs, _⟩ := lmAltMatch_some text i alt mt hm
+        refine ⟨by omega, by omega, fun c h1 h2 => by omega, ?_⟩
+        intro o ho
+        exact (lmMinEnd_le mt.coreStart alts mt.«end»).2 o ho
+      | none =>
+        simp only []
+        have hnone : ∀ alt, alt ∈ alts → lmAltMatch text i alt = none := by
+          intro alt halt
+          exact (List.findSome?_eq_none_iff.mp hf) alt halt
+        have := ih (i + 1) (by omega)
+        cases hr : lmFindNext text alts fuel (i + 1) with
+        | none =>
+          rw [hr] at this
+          intro c hc alt halt
+          by_cases hci : c = i
+          · subst hci; exact hnone alt halt
+          · exact this c (by omega) alt halt
+        | some r =>
+          rw [hr] at this
+          obtain ⟨mt, minEnd⟩ := r
+          obtain ⟨x1, x2, x3, x4⟩ := this
+          refine ⟨by omega, x2, ?_, x4⟩
+          intro c hc1 hc2 alt halt
+          by_cases hci : c = i
+          · subst hci; exact hnone alt halt
+          · exact x3 c (by omega) hc2 alt halt
+    · rw [if_neg hin]
+      intro c hc alt _
+      cases hm : lmAltMatch text c alt with
+      | none => rfl
+      | some mt => have := (lmAltMatch_some text c alt mt hm).2; omega
+
+/-- if the remaining landmarks occur in order from `lb`, the inner loop of the finder succeeds from any
+    earlier start -/
+theorem lmRest_of_chain (text : List Nat) : ∀ (rest : List (List LmAlt)) (lb lb' : Nat),
+    LmChainAt text rest lb → lb' ≤ lb → lmRest text rest lb' = true := by
+  intro rest
+  induction rest with
+  | nil => intro lb lb' _ _; rfl
+  | cons alts rest ih =>
+    intro lb lb' hch hle
+    obtain ⟨c, alt, hc1, halt, hm, hrest⟩ := hch
+    unfold lmRest
+    have hspec := lmFindNext_spec text alts (text.length + 1) lb' (by omega)
+    cases hf : lmFindNext text alts (text.length + 1) lb' with
+    | none =>
+      rw [hf] at hspec
+      have := hspec c (by omega) alt halt
+      rw [this] at hm; simp at hm
+    | some r =>
+      rw [hf] at hspec
+      obtain ⟨mt, minEnd⟩ := r
+      obtain ⟨x1, x2, x3, x4⟩ := hspec
+      simp only []
+      have hcs : mt.coreStart ≤ c := by
+        by_cases hlt : c < mt.coreStart
+        · have := x3 c (by omega) hlt alt halt
+          rw [this] at hm; simp at hm
+        · omega
+      have := x4 alt halt
+      exact ih (c + alt.minWidth) minEnd hrest (by omega)
+
+theorem lmLoop_range (S : Nat → Bool) (first : List LmAlt) (rest : List (List LmAlt)) (text : List Nat)
+    (minLen pos : Nat) : ∀ (fuel s q : Nat), pos ≤ s →
+    lmLoop S first rest text minLen pos fuel s = some q → pos ≤ q ∧ q ≤ text.length := by
+  intro fuel
+  induction fuel with
+  | zero => intro s q _ h; simp [lmLoop] at h
+  | succ fuel ih =>
+    intro s q hs h
+    unfold lmLoop at h
+    split at h
+    · have hspec := lmFindNext_spec text first (text.length + 1) s (by omega)
+      cases hf : lmFindNext text first (text.length + 1) s with
+      | none => rw [hf] at h; simp at h
+      | some r =>
+        rw [hf] at h hspec
+        obtain ⟨mt, e⟩ := r
+        obtain ⟨x1, x2, _, _⟩ := hspec
+        simp only [] at h
+        split at h
+        · obtain ⟨w1, w2, _, _⟩ := walkBack_spec (lmLeadingWs first) text pos mt.coreStart (by omega)
+          obtain ⟨v1, v2, _, _⟩ := walkBack_spec S text pos (walkBack (lmLeadingWs first) text pos mt.coreStart) w1
+          split at h
+          · injection h with h; subst h; exact ⟨v1, by omega⟩
+          · exact ih (mt.coreStart + 1) q (by omega) h
+        · simp at h
+    · simp at h
+
+theorem finderLandmarkChain_sound (ch : LmChain) (S : Nat → Bool) (first : List LmAlt) (rest : List (List LmAlt))
+    (text : List Nat) (minLen : Nat) (attempt : Nat → Option (Nat × Nat))
+    (hS : ch.loopSet = some S) (hL : ch.landmarks = first :: rest)
+    (hF : LandmarkFact S first rest text attempt)
+    (hM : MinLenSound false text.length minLen attempt) :
+    FinderSound false text.length (finderLandmarkChain ch text minLen) attempt := by
+  apply finderSound_ltr
+  intro pos hpos
+  unfold finderLandmarkChain
+  simp only [hS, hL]
+  apply ltrPost_of_opt _ _ _ hpos
+  -- only the first iteration decides: later ones run when no position from `pos` on can match
+  show LtrOpt attempt text.length pos (lmLoop S first rest text minLen pos (text.length + 1) pos)
+  have hnone : ∀ {P : Prop}, (∀ p, pos ≤ p → p ≤ text.length → attempt p ≠ none → P) →
+      (¬ P → ∀ p, pos ≤ p → p ≤ text.length → attempt p = none) := by
+    intro P h hnp p h1 h2
+    cases ha : attempt p with
+    | none => rfl
+    | some m => exact absurd (h p h1 h2 (by rw [ha]; simp)) hnp
+  unfold lmLoop
+  by_cases hg : pos + minLen ≤ text.length
+  · rw [if_pos hg]
+    have hspec := lmFindNext_spec text first (text.length + 1) pos (by omega)
+    cases hf : lmFindNext text first (text.length + 1) pos with
+    | none =>
+      rw [hf] at hspec
+      simp only [LtrOpt]
+      apply hnone (P := False) _ (fun h => h)
+      intro p h1 h2 hne
+      obtain ⟨a, c, alt, y1, y2, _, _, y5, y6, _⟩ := hF p h2 hne
+      have := hspec c (by omega) alt y5
+      rw [this] at y6; simp at y6
+    | some r =>
+      rw [hf] at hspec
+      obtain ⟨mt, firstMinEnd⟩ := r
+      obtain ⟨x1, x2, x3, x4⟩ := hspec
+      simp only []
+      -- every matching position at or after `pos` has its first landmark at or after the one found
+      have hreal : ∀ p, pos ≤ p → p ≤ text.length → attempt p ≠ none →
+          lmRest text rest firstMinEnd = true ∧
+          walkBack S text pos (walkBack (lmLeadingWs first) text pos mt.coreStart) ≤ p := by
+        intro p h1 h2 hne
+        obtain ⟨a, c, alt, y1, y2, y3, y4, y5, y6, y7⟩ := hF p h2 hne
+        have hcs : mt.coreStart ≤ c := by
+          by_cases hlt : c < mt.coreStart
+          · have := x3 c (by omega) hlt alt y5
+            rw [this] at y6; simp at y6
+          · omega
+        refine ⟨lmRest_of_chain text rest _ _ y7 (by have := x4 alt y5; omega), ?_⟩
+        obtain ⟨w1, w2, w3, w4⟩ := walkBack_spec (lmLeadingWs first) text pos mt.coreStart (by omega)
+        have hc1a : walkBack (lmLeadingWs first) text pos mt.coreStart ≤ a := by
+          rcases w4 with heq | ⟨hpos', hnot⟩
+          · omega
+          · by_cases hgt : a < walkBack (lmLeadingWs first) text pos mt.coreStart
+            · have := y4 (walkBack (lmLeadingWs first) text pos mt.coreStart - 1) (by omega) (by omega)
+              rw [this] at hnot; simp at hnot
+            · omega
+        obtain ⟨v1, v2, v3, v4⟩ := walkBack_spec S text pos _ w1
+        rcases v4 with heq | ⟨hpos', hnot⟩
+        · omega
+        · by_cases hgt : p < walkBack S text pos (walkBack (lmLeadingWs first) text pos mt.coreStart)
+          · have := y3 (walkBack S text pos (walkBack (lmLeadingWs first) text pos mt.coreStart) - 1) (by omega) (by omega)
+            rw [this] at hnot; simp at hnot
+          · omega
+      by_cases hrest : lmRest text rest firstMinEnd = true
+      · rw [if_pos hrest]
+        obtain ⟨w1, w2, _, _⟩ := walkBack_spec (lmLeadingWs first) text pos mt.coreStart (by omega)
+        obtain ⟨v1, v2, _, _⟩ := walkBack_spec S text pos _ w1
+        by_cases hlen : hasLen minLen text.length (walkBack S text pos (walkBack (lmLeadingWs first) text pos mt.coreStart)) = true
+        · rw [if_pos hlen]
+          refine ⟨v1, by omega, ?_⟩
+          intro p hp1 hp2
+          cases ha : attempt p with
+          | none => rfl
+          | some m =>
+            have := (hreal p hp1 (by omega) (by rw [ha]; simp)).2
+            omega
+        · rw [if_neg hlen]
+          simp only [hasLen, decide_eq_true_eq] at hlen
+          have hno : ∀ p, pos ≤ p → p ≤ text.length → attempt p = none := by
+            apply hnone (P := False) _ (fun h => h)
+            intro p h1 h2 hne
+            have := (hreal p h1 h2 hne).2
+            have := minLen_ltr hM p h2 hne
+            omega
+          cases hr : lmLoop S first rest text minLen pos text.length (mt.coreStart + 1) with
+          | none => exact hno
+          | some q =>
+            obtain ⟨q1, q2⟩ := lmLoop_range S first rest text minLen pos _ _ q (by omega) hr
+            exact ⟨q1, q2, fun p hp1 hp2 => hno p hp1 (by omega)⟩
+      · rw [if_neg hrest]
+        apply hnone (P := False) _ (fun h => h)
+        intro p h1 h2 hne
+        exact hrest (hreal p h1 h2 hne).1
+  · rw [if_neg hg]
+    intro p h1 h2
+    cases ha : attempt p with
+    | none => rfl
+    | some m =>
+      have := minLen_ltr hM p h2 (by rw [ha]; simp)
+      omega
+
 /-! ### the dispatch of `findFirstCharDefault` -/
 
 theorem finderSound_congr (rtl : Bool) (n : Nat) (f g : Nat → Bool × Nat) (attempt : Nat → Option (Nat × Nat))
@@ -1160,9 +1497,8 @@ theorem finderSound_congr (rtl : Bool) (n : Nat) (f g : Nat → Bool × Nat) (at
   rw [h pos]
   exact hg pos hpos
 
-/-- the fact consumed by the helper that `findFirstCharOptimized` selects for the mode.  For the
-    required-landmark chain no fact is stated: the soundness of that helper is an assumption here
-    (oracle N and leg Fm stand in). -/
+/-- the fact consumed by the helper that `findFirstCharOptimized` selects for the mode (for the
+    required-landmark chain: `LandmarkFact`) -/
 def OptFacts (lower : Nat → Nat) (o : FindOpts) (text : List Nat) (attempt : Nat → Option (Nat × Nat)) : Prop :=
   match o.mode with
   | .trailingAnchorFixedLengthLtrEnd => ∀ p, p ≤ text.length → attempt p ≠ none → p + o.minLen = text.length
@@ -1181,7 +1517,8 @@ def OptFacts (lower : Nat → Nat) (o : FindOpts) (text : List Nat) (attempt : N
   | .literalAfterLoopLtr =>
     ∃ l S, o.literalAfterLoop = some l ∧ l.loopSet = some S ∧ LitAfterLoopFact lower l S text attempt
   | .requiredLandmarkChainLtr =>
-    ∃ ch, o.chain = some ch ∧ FinderSound false text.length (finderLandmarkChain ch text o.minLen) attempt
+    ∃ ch S first rest, o.chain = some ch ∧ ch.loopSet = some S ∧ ch.landmarks = first :: rest ∧
+      LandmarkFact S first rest text attempt
   | _ => True
 
 /-- the published facts of the path `findFirstCharDefault` takes are true at every successful attempt -/
@@ -1245,8 +1582,9 @@ theorem finderDefault_sound (f : Facts) (text : List Nat) (textstart : Nat) (att
         · obtain ⟨l, S, hl, hS, hL⟩ := hO
           exact hcongr _ (fun pos => by simp [finderOptimized, hm, hl])
             (finderLiteralAfterLoop_sound _ _ _ _ _ _ hS hL hM)
-        · obtain ⟨ch, hch, hS⟩ := hO
-          exact hcongr _ (fun pos => by simp [finderOptimized, hm, hch]) hS
+        · obtain ⟨ch, S, first, rest, hch, hS, hL, hF⟩ := hO
+          exact hcongr _ (fun pos => by simp [finderOptimized, hm, hch])
+            (finderLandmarkChain_sound ch S first rest text _ attempt hS hL hF hM)
       · have hsu' : shouldUse f.opts = false := by simpa using hsu
         cases hfc : f.fc with
         | none =>
